@@ -136,7 +136,7 @@ def _identical(a, b):
 
 def _params(cls, cfg="default"):
     base = {"EOFRotator": "EOF", "MCARotator": "MCA", "CPCCARotator": "CPCCA"}.get(cls, cls)
-    kw = zoo.default_kwargs(base, n_modes=2)
+    kw = zoo.default_kwargs(base, n_modes=3 if cls in ROT else 2)
     if cfg == "raw_weights" and base in SINGLE:
         kw.update(center=False)
     if base == "OPA":
@@ -165,11 +165,18 @@ def _weights_for(data, cfg, base):
     return [one(d, i) for i, d in enumerate(data)]
 
 
-def _fit_fresh(cls, data, cfg="default"):
+def _rot_kw(case_or_seed):
+    """Rotators rotate three modes; every second history uses Promax (power 2), which permutes the variance order
+    more often -- a rotator that is fitted again must re-sort."""
+    seed = case_or_seed if isinstance(case_or_seed, int) else int(case_or_seed.get("dseed", 0))
+    return {"n_modes": 3, "power": 1 + seed % 2}
+
+
+def _fit_fresh(cls, data, cfg="default", rot_kw=None):
     base, kw = _params(cls, cfg)
     w = _weights_for(data, cfg, base)
     if cls in ROT:
-        return zoo.fit(cls, copy.deepcopy(data), "time", kw, rot_kw={"n_modes": 2, "power": 1}, weights=copy.deepcopy(w))
+        return zoo.fit(cls, copy.deepcopy(data), "time", kw, rot_kw=rot_kw or {"n_modes": 3, "power": 1}, weights=copy.deepcopy(w))
     return zoo.fit(base, copy.deepcopy(data), "time", kw, weights=copy.deepcopy(w))
 
 
@@ -275,7 +282,7 @@ def run_case(case, obs):
 
     def ref_for(i):
         if i not in ref_cache:
-            f = _fit_fresh(cls, pool[i], cfg)
+            f = _fit_fresh(cls, pool[i], cfg, _rot_kw(case))
             ref_cache[i] = (_Q(f, pool[i]), f)
         return ref_cache[i][0]
 
@@ -284,7 +291,7 @@ def run_case(case, obs):
         warnings.simplefilter("ignore")
         # the aged object(s)
         model = zoo.make(base, **kw)
-        rot = zoo.make(cls, n_modes=2, power=1) if cls in ROT else None
+        rot = zoo.make(cls, **_rot_kw(case)) if cls in ROT else None
         current = None  # index of the last successful fit, None = unknown state
         facade = None
         hist = []
@@ -386,7 +393,7 @@ def run_case(case, obs):
     # fresh-vs-fresh: the reference itself must be reproducible, otherwise the comparison above is meaningless
     if ref_cache:
         i = sorted(ref_cache)[0]
-        f2 = _fit_fresh(cls, pool[i], cfg)
+        f2 = _fit_fresh(cls, pool[i], cfg, _rot_kw(case))
         _cmp(obs, "fresh_vs_fresh", _Q(f2, pool[i]), ref_cache[i][0], {"op": "reference_reproducibility"})
 
 
